@@ -263,6 +263,26 @@ func (e *Eng) iterate(fr *Frame, c *ssa.CallCommon, kind, t string, clo *Val, in
 	oldFr := e.get(st, frRegion, "Int")
 	mods := e.modSet(fn)
 	gen := e.modGeneral[fn]
+	if e.spec.Funcs[fnKey(fn)] == nil {
+		// a callback without a contract of its own runs under the site clauses of the function it is written in
+		if sf, _ := fr.specFrame(); sf != nil {
+			extra, extraGen := map[string]bool{}, map[string]bool{}
+			e.ghostSitesIn(fn, sf.fspec, extra, extraGen, 0)
+			if len(extra) > 0 {
+				nm, ng := map[string]bool{}, map[string]bool{}
+				for k := range mods {
+					nm[k] = true
+				}
+				for k := range gen {
+					ng[k] = true
+				}
+				for k := range extra {
+					nm[k], ng[k] = true, true
+				}
+				mods, gen = nm, ng
+			}
+		}
+	}
 	for _, r := range sortedKeys(mods) {
 		if r == btItems || r == btLen {
 			e.errf("the callback of %s modifies the tree it iterates over", name)
@@ -293,6 +313,7 @@ func (e *Eng) iterate(fr *Frame, c *ssa.CallCommon, kind, t string, clo *Val, in
 		if fs := e.spec.Funcs[fnKey(fn)]; fs != nil {
 			cfs = fs
 		}
+		e.pendingUp = fr
 		res, out, outG := e.execFunc(fn, []*Val{arg}, clo.Clo.Bindings, st2, gi, fr.depth+1, cfs, e.namePrefix+"in:"+fnKey(fn)+"/")
 		e.inlineStack = e.inlineStack[:len(e.inlineStack)-1]
 		e.sc.comment("end callback " + fnKey(fn))
